@@ -20,7 +20,7 @@
    What holds (the `_partial` theorems): open / write / update / chtimes are ATOMIC under a kill - every query is answered as the
    run map before or after the operation says (P1-P4, except that "after Open" has a newest run without status: F7a);
    close: find answers as before in every crash state (P1, P2), and outside the twin window everything is atomic;
-   retention: every run not up for removal is found intact (P1).  Rename is covered by the enumeration only.
+   retention: every run not up for removal is found intact (P1); rename: every run is found under exactly one name (P1).
    What the faithful model refutes (the C07_refuted theorems): F7a, F7b, F7c. *)
 From Coq Require Import List String ZArith.
 Import ListNotations.
@@ -59,6 +59,20 @@ Theorem C07_crash_removeold_partial :
   fpayload (q_find loc dirhash fs' (a_dag a) (a_req a)) = last_opt (a_sts a).
 Proof. exact crash_removeold0. Qed.
 Print Assumptions C07_crash_removeold_partial.
+
+(* rename: whatever prefix of the renames was executed, runs of other DAGs are found intact and every run of the renamed DAG is found
+   intact under exactly one of the old and the new name (P1) *)
+Theorem C07_crash_rename_partial :
+  forall loc dirhash D days K, names_okb loc dirhash D days K = true -> closedb D K = true ->
+  forall es d d' fs', premises loc dirhash D days K (es ++ [EOp (ORename d d')]) ->
+  In fs' (crash_states loc dirhash (y_h (yrun loc dirhash sys_init es)) (ORename d d')) ->
+  forall a, In a (h_runs (sp_state es)) -> In (a_dag a) D -> a_req a <> ""%string ->
+    (a_dag a <> d -> fpayload (q_find loc dirhash fs' (a_dag a) (a_req a)) = last_opt (a_sts a))
+    /\ (a_dag a = d ->
+         (fpayload (q_find loc dirhash fs' d (a_req a)) = last_opt (a_sts a) /\ fpayload (q_find loc dirhash fs' d' (a_req a)) = None)
+         \/ (fpayload (q_find loc dirhash fs' d (a_req a)) = None /\ fpayload (q_find loc dirhash fs' d' (a_req a)) = last_opt (a_sts a))).
+Proof. exact crash_rename0. Qed.
+Print Assumptions C07_crash_rename_partial.
 
 (* ---- refuted on the faithful model (defects of the pinned code) ---------------------------------------------------------- *)
 (* F7a (P3, P4): kill between Open's create and the first write - empty newest file: latest = error, recent 1 = nothing *)
